@@ -33,6 +33,7 @@ func HostileStrings() []string {
 		"&amp;", "&lt;", "&#x3c;", "&#60;", "&lt", "&#", "&;", "&amp;amp;", "&nbsp;x", "AT&T", "a&b;c",
 		"<b>", "</b>", "<br>", "<wbr>", "<script>alert(1)</script>", "</script>", "<!--", "-->", "]]>", "<a href=\"x\" onclick='y'>", "<img src=x onerror=alert(1)>",
 		"line1\nline2", "line1\r\nline2\rline3\n", "\n", "\r", "\r\n\r\n", "tab\tsep", "back\\slash", "quote\"s'", "%20%", "100%", "a+b c", "a=b&c=d", "http://x.y/z?q=1&r=<2>",
+		"\u2028A", "\u2029f0", "\u200b1", "\u3000a", "\ufeffB", "\ue000c", "\u2028\u20281", "x\u200eD\u2060e", "\u2028", "\u0085a", "\u00ad9", "\u061cF",
 		"averyveryveryveryverylongwordwithoutanyspaces", "short words only here", "x y", strings.Repeat("<", 200), strings.Repeat("&amp;", 100), strings.Repeat("a b", 300), strings.Repeat("é", 500), strings.Repeat("0123456789", 100),
 		"a"+strings.Repeat("é", 1500), "ab"+strings.Repeat("中", 1400), "x"+strings.Repeat("😀", 1100), strings.Repeat("word ", 900)+strings.Repeat("é", 300),
 		strings.Repeat("<é>&", 1300), "q"+strings.Repeat("日本語", 1500),
